@@ -1,12 +1,15 @@
 """T1/T2 for C14: keyword.kwlist as seen by the running interpreter, and the
 keyword-mincing expression of hy/compat.py:rewriting_unparse -> coq/Gen/Keywords.v
 
-Accepted shape of rewriting_unparse (anything else: ShapeChanged):
-    deep copy; for node in ast.walk: skip `type(node) is ast.Constant`;
-    for field in node._fields: v = getattr(node, field, None);
-    if type(v) is str and keyword.iskeyword(v) and v not in (<string literals>):
-        setattr(node, field, chr(ord(v[0]) - ord(<c1>) + ord(<c2>)) + v[1:])
-    return true_unparse(ast_obj)
+Accepted shape (anything else: ShapeChanged):
+    rewriting_unparse: ast_obj = NegativeConstants().visit(copy.deepcopy(ast_obj)); for node in ast.walk:
+      skip `type(node) is ast.Constant`; for field in node._fields: v = getattr(node, field, None);
+      if type(v) is str: setattr(node, field, mince(v))
+      [elif type(v) is list and all(type(x) is str for x in v): setattr(node, field, [mince(x) for x in v])]
+      return true_unparse(ast_obj)
+    mince(v): if keyword.iskeyword(v) and v not in (<string literals>): return chr(ord(v[0]) - ord(<c1>) + ord(<c2>)) + v[1:]; return v
+    NegativeConstants(ast.NodeTransformer).visit_Constant: v = node.value;
+      if type(v) in (<int, float[, complex]>) and math.copysign(1, v) < 0: return UnaryOp(USub, Constant(-v)) (locations copied); return node
 """
 import ast
 import keyword
@@ -16,67 +19,100 @@ from translator.common import *  # noqa
 REL = "hy/compat.py"
 
 
+def _u(n):
+    return ast.unparse(n)
+
+
 def extract(repo):
     tree, _ = parse_py(repo, REL)
     ifs = [n for n in tree.body if isinstance(n, ast.If)]
-    guard = [n for n in ifs if "ast.unparse(ast.parse(" in ast.unparse(n.test)]
+    guard = [n for n in ifs if "ast.unparse(ast.parse(" in _u(n.test)]
     if len(guard) != 1:
         raise ShapeChanged("%s: the conditional installation of rewriting_unparse was not found" % REL)
     g = guard[0]
-    test = ast.unparse(g.test)
-    if test != "'def' in ast.unparse(ast.parse('𝕕𝕖𝕗 = 1'))":
-        raise ShapeChanged("%s: installation test is `%s`" % (REL, test))
-    fns = [n for n in g.body if isinstance(n, ast.FunctionDef) and n.name == "rewriting_unparse"]
-    if len(fns) != 1:
-        raise ShapeChanged("%s: no rewriting_unparse in the guarded block" % REL)
-    if "ast.unparse = rewriting_unparse" not in [ast.unparse(n) for n in g.body]:
+    if _u(g.test) != "'def' in ast.unparse(ast.parse('𝕕𝕖𝕗 = 1'))":
+        raise ShapeChanged("%s: installation test is `%s`" % (REL, _u(g.test)))
+    fns = {n.name: n for n in g.body if isinstance(n, ast.FunctionDef)}
+    classes = {n.name: n for n in g.body if isinstance(n, ast.ClassDef)}
+    if "rewriting_unparse" not in fns or "mince" not in fns or "NegativeConstants" not in classes:
+        raise ShapeChanged("%s: expected rewriting_unparse, mince and NegativeConstants in the guarded block" % REL)
+    if "ast.unparse = rewriting_unparse" not in [_u(n) for n in g.body]:
         raise ShapeChanged("%s: ast.unparse is not replaced by rewriting_unparse" % REL)
-    fn = fns[0]
-    body = body_without_docstring(fn)
-    if len(body) != 3 or ast.unparse(body[0]) != "ast_obj = copy.deepcopy(ast_obj)" or \
-            ast.unparse(body[2]) != "return true_unparse(ast_obj)" or not isinstance(body[1], ast.For):
-        raise ShapeChanged("%s: rewriting_unparse is not copy / walk / return true_unparse" % REL)
+    # ---- rewriting_unparse: transform negative constants on a deep copy, walk, rewrite str and list-of-str fields
+    body = body_without_docstring(fns["rewriting_unparse"])
+    if len(body) != 3 or _u(body[0]) != "ast_obj = NegativeConstants().visit(copy.deepcopy(ast_obj))" or \
+            _u(body[2]) != "return true_unparse(ast_obj)" or not isinstance(body[1], ast.For):
+        raise ShapeChanged("%s: rewriting_unparse is not NegativeConstants-on-a-copy / walk / return true_unparse" % REL)
     loop = body[1]
-    if ast.unparse(loop.iter) != "ast.walk(ast_obj)" or len(loop.body) != 2:
+    if _u(loop.iter) != "ast.walk(ast_obj)" or len(loop.body) != 2:
         raise ShapeChanged("%s: outer loop of rewriting_unparse changed" % REL)
     skip, inner = loop.body
-    if not (isinstance(skip, ast.If) and ast.unparse(skip.test) == "type(node) is ast.Constant" and
+    if not (isinstance(skip, ast.If) and _u(skip.test) == "type(node) is ast.Constant" and
             len(skip.body) == 1 and isinstance(skip.body[0], ast.Continue) and not skip.orelse):
         raise ShapeChanged("%s: the `skip Constant nodes` test changed" % REL)
-    if not (isinstance(inner, ast.For) and ast.unparse(inner.iter) == "node._fields" and len(inner.body) == 2):
+    if not (isinstance(inner, ast.For) and _u(inner.iter) == "node._fields" and len(inner.body) == 2):
         raise ShapeChanged("%s: inner loop of rewriting_unparse changed" % REL)
     assign, cond = inner.body
-    if ast.unparse(assign) != "v = getattr(node, field, None)" or not isinstance(cond, ast.If) or cond.orelse:
+    if _u(assign) != "v = getattr(node, field, None)" or not isinstance(cond, ast.If):
         raise ShapeChanged("%s: field access in rewriting_unparse changed" % REL)
-    t = cond.test
-    if not (isinstance(t, ast.BoolOp) and isinstance(t.op, ast.And) and len(t.values) == 3 and
-            ast.unparse(t.values[0]) == "type(v) is str" and ast.unparse(t.values[1]) == "keyword.iskeyword(v)" and
-            isinstance(t.values[2], ast.Compare) and isinstance(t.values[2].ops[0], ast.NotIn) and
-            ast.unparse(t.values[2].left) == "v" and isinstance(t.values[2].comparators[0], ast.Tuple)):
-        raise ShapeChanged("%s: mincing condition changed: %s" % (REL, ast.unparse(t)))
-    excl = [const_str(e, "mincing exclusion") for e in t.values[2].comparators[0].elts]
-    stmts = [s for s in cond.body]
-    if len(stmts) != 1 or not (isinstance(stmts[0], ast.Expr) and isinstance(stmts[0].value, ast.Call) and
-                               ast.unparse(stmts[0].value.func) == "setattr" and len(stmts[0].value.args) == 3 and
-                               ast.unparse(stmts[0].value.args[0]) == "node" and ast.unparse(stmts[0].value.args[1]) == "field"):
-        raise ShapeChanged("%s: mincing assignment changed" % REL)
-    e = stmts[0].value.args[2]
-    # chr(ord(v[0]) - ord(c1) + ord(c2)) + v[1:]
-    ok = (isinstance(e, ast.BinOp) and isinstance(e.op, ast.Add) and ast.unparse(e.right) == "v[1:]" and
-          isinstance(e.left, ast.Call) and ast.unparse(e.left.func) == "chr" and len(e.left.args) == 1)
+    if _u(cond.test) != "type(v) is str" or [_u(x) for x in cond.body] != ["setattr(node, field, mince(v))"]:
+        raise ShapeChanged("%s: the str-field branch of rewriting_unparse changed" % REL)
+    lists = False
+    if cond.orelse:
+        if not (len(cond.orelse) == 1 and isinstance(cond.orelse[0], ast.If) and not cond.orelse[0].orelse and
+                _u(cond.orelse[0].test) == "type(v) is list and all((type(x) is str for x in v))" and
+                [_u(x) for x in cond.orelse[0].body] == ["setattr(node, field, [mince(x) for x in v])"]):
+            raise ShapeChanged("%s: the list-field branch of rewriting_unparse changed: %s" % (REL, _u(cond.orelse[0])[:120]))
+        lists = True
+    # ---- mince
+    mb = body_without_docstring(fns["mince"])
+    if len(mb) != 2 or not isinstance(mb[0], ast.If) or mb[0].orelse or _u(mb[1]) != "return v" or len(mb[0].body) != 1 \
+            or not isinstance(mb[0].body[0], ast.Return):
+        raise ShapeChanged("%s: mince is not `if <cond>: return <minced>; return v`" % REL)
+    t = mb[0].test
+    if not (isinstance(t, ast.BoolOp) and isinstance(t.op, ast.And) and len(t.values) == 2 and
+            _u(t.values[0]) == "keyword.iskeyword(v)" and isinstance(t.values[1], ast.Compare) and
+            isinstance(t.values[1].ops[0], ast.NotIn) and _u(t.values[1].left) == "v" and
+            isinstance(t.values[1].comparators[0], ast.Tuple)):
+        raise ShapeChanged("%s: mincing condition changed: %s" % (REL, _u(t)))
+    excl = [const_str(e, "mincing exclusion") for e in t.values[1].comparators[0].elts]
+    e = mb[0].body[0].value
+    ok = (isinstance(e, ast.BinOp) and isinstance(e.op, ast.Add) and _u(e.right) == "v[1:]" and
+          isinstance(e.left, ast.Call) and _u(e.left.func) == "chr" and len(e.left.args) == 1)
     if ok:
         inner_e = e.left.args[0]
         ok = (isinstance(inner_e, ast.BinOp) and isinstance(inner_e.op, ast.Add) and isinstance(inner_e.left, ast.BinOp) and
-              isinstance(inner_e.left.op, ast.Sub) and ast.unparse(inner_e.left.left) == "ord(v[0])" and
-              isinstance(inner_e.left.right, ast.Call) and ast.unparse(inner_e.left.right.func) == "ord" and
-              isinstance(inner_e.right, ast.Call) and ast.unparse(inner_e.right.func) == "ord")
+              isinstance(inner_e.left.op, ast.Sub) and _u(inner_e.left.left) == "ord(v[0])" and
+              isinstance(inner_e.left.right, ast.Call) and _u(inner_e.left.right.func) == "ord" and
+              isinstance(inner_e.right, ast.Call) and _u(inner_e.right.func) == "ord")
     if not ok:
-        raise ShapeChanged("%s: mincing expression is `%s`" % (REL, ast.unparse(e)))
+        raise ShapeChanged("%s: mincing expression is `%s`" % (REL, _u(e)))
     c1 = const_str(inner_e.left.right.args[0], "mince base")
     c2 = const_str(inner_e.right.args[0], "mince target")
     if len(c1) != 1 or len(c2) != 1:
         raise ShapeChanged("%s: mince bases are not single characters" % REL)
-    return {"exclusions": excl, "from": ord(c1), "to": ord(c2)}
+    # ---- NegativeConstants.visit_Constant
+    cls = classes["NegativeConstants"]
+    if [_u(b) for b in cls.bases] != ["ast.NodeTransformer"]:
+        raise ShapeChanged("%s: NegativeConstants is not an ast.NodeTransformer" % REL)
+    meths = [n for n in cls.body if isinstance(n, ast.FunctionDef)]
+    if [m.name for m in meths] != ["visit_Constant"]:
+        raise ShapeChanged("%s: NegativeConstants has other methods than visit_Constant" % REL)
+    vb = body_without_docstring(meths[0])
+    want_ret = "return ast.copy_location(ast.UnaryOp(ast.USub(), ast.copy_location(ast.Constant(-v), node)), node)"
+    if not (len(vb) == 3 and _u(vb[0]) == "v = node.value" and isinstance(vb[1], ast.If) and not vb[1].orelse and
+            [_u(x) for x in vb[1].body] == [want_ret] and _u(vb[2]) == "return node"):
+        raise ShapeChanged("%s: NegativeConstants.visit_Constant changed" % REL)
+    ct = vb[1].test
+    if not (isinstance(ct, ast.BoolOp) and isinstance(ct.op, ast.And) and len(ct.values) == 2 and
+            isinstance(ct.values[0], ast.Compare) and _u(ct.values[0].left) == "type(v)" and isinstance(ct.values[0].ops[0], ast.In) and
+            isinstance(ct.values[0].comparators[0], ast.Tuple) and _u(ct.values[1]) == "math.copysign(1, v) < 0"):
+        raise ShapeChanged("%s: the test of NegativeConstants.visit_Constant changed: %s" % (REL, _u(ct)))
+    types_ = [_u(x) for x in ct.values[0].comparators[0].elts]
+    for ty in types_:
+        if ty not in ("int", "float", "complex"):
+            raise ShapeChanged("%s: unexpected constant type %s in NegativeConstants" % (REL, ty))
+    return {"exclusions": excl, "from": ord(c1), "to": ord(c2), "lists": lists, "neg_types": types_}
 
 
 def translate(repo):
@@ -86,4 +122,9 @@ def translate(repo):
     out += "Definition softkwlist : list (list N) := [%s].\n" % "; ".join(coq_text(k) for k in keyword.softkwlist)
     out += "Definition mince_exclusions : list (list N) := [%s].\n" % "; ".join(coq_text(k) for k in x["exclusions"])
     out += "Definition mince_from : N := %d%%N.\nDefinition mince_to : N := %d%%N.\n" % (x["from"], x["to"])
+    out += "(* rewriting_unparse also rewrites fields that hold a list of strings *)\n"
+    out += "Definition list_fields_minced : bool := %s.\n" % ("true" if x["lists"] else "false")
+    out += "(* NegativeConstants: numeric kinds whose negative constants are re-expressed as -(constant) *)\n"
+    out += "Definition neg_int : bool := %s.\nDefinition neg_float : bool := %s.\nDefinition neg_complex : bool := %s.\n" % tuple(
+        "true" if t in x["neg_types"] else "false" for t in ("int", "float", "complex"))
     return {"Gen/Keywords.v": out}
